@@ -14,7 +14,7 @@ Pool == IF "POOL" \in DOMAIN IOEnv THEN atoi(IOEnv.POOL) ELSE 2
 VARIABLES sk,    \* skeleton index (emit) / program index (gen)
           nm,    \* the naming: binder id -> name
           evs,   \* the program as its sequence of scope events
-          gl,    \* its module globals
+          gl,    \* its module globals: binder -> module
           ms,    \* the skeleton's max-shadow naming (constant along a behaviour)
           pc,    \* index of the next event
           st     \* machine state: stack of (name, binder), frames, resolutions so far, duplicate flag
@@ -25,11 +25,14 @@ GenCases == IF Mode = "gen" THEN ndJsonDeserialize(IOEnv.GEN) ELSE <<>>
 N == Len(evs)
 
 Init == \/ /\ Mode = "emit" /\ sk \in 1..NSkel
-           /\ LET k == SkInfo(sk)
-                  m == MaxShadowOf(k)
-              IN /\ nm \in Namings(k, Pool, m) /\ evs = k.evs /\ gl = k.G /\ ms = m /\ st = InitSt(k.G, nm)
+           \* (bound through singleton sets: a LET would be re-evaluated for every naming)
+           /\ \E k \in {SkInfo(sk)} : \E m \in {MaxShadowOf(k)} :
+                 /\ nm \in Namings(k, Pool, m) /\ evs = k.evs /\ gl = k.G /\ ms = m /\ st = InitSt(k.G, nm)
            /\ pc = 1
-        \/ /\ Mode = "gen" /\ sk \in 1..Len(GenCases) /\ nm = <<>> /\ evs = <<>> /\ gl = {} /\ ms = <<>> /\ pc = 0 /\ st = EmptySt
+        \* one behaviour per (skeleton, binder) checks and emits the planted uses of that binder
+        \/ /\ Mode = "emit" /\ sk \in 1..NSkel /\ pc \in {0 - b : b \in 1..NB(sk)}
+           /\ nm = <<>> /\ evs = <<>> /\ gl = <<>> /\ ms = <<>> /\ st = EmptySt
+        \/ /\ Mode = "gen" /\ sk \in 1..Len(GenCases) /\ nm = <<>> /\ evs = <<>> /\ gl = <<>> /\ ms = <<>> /\ pc = 0 /\ st = EmptySt
 
 At(kind) == pc >= 1 /\ pc <= N /\ evs[pc].k = kind
 Go(new) == st' = new /\ pc' = pc + 1 /\ UNCHANGED <<sk, nm, evs, gl, ms>>
@@ -46,27 +49,42 @@ EnterLoopBody == At("enterloop") /\ Go(Push(st, "loop", pc))
 ExitLoopBody  == At("exitloop") /\ CanPop(st, "loop") /\ Go(Pop(st))
 Declare       == At("declare") /\ Go(DeclareB(st, evs[pc].b, nm))
 Use           == At("use") /\ Go(UseB(st, evs[pc].b, evs[pc].s, gl, nm))
+QualifiedUse  == At("quse") /\ Go(QUseB(st, evs[pc].b, gl, nm))
+EnterModule   == At("module") /\ Go([st EXCEPT !.mod = evs[pc].b])
+EnterTop      == At("top") /\ Len(st.stack) = 0 /\ Go(st)          \* a global's initialiser starts with an empty stack
 
 Tags(n) == (IF n = AllDistinct(Len(n)) THEN {"distinct"} ELSE {})
            \cup (IF n = ms THEN {"maxshadow"} ELSE {})
            \cup (IF n \in PairMerges(Len(n)) THEN {"pair"} ELSE {})
-           \cup (IF \A j \in 1..Len(n) : n[j] <= Pool THEN {"pool"} ELSE {})
+           \cup (IF \A j \in 1..Len(n) : n[j] \in 1..Pool THEN {"pool"} ELSE {})
+           \cup (IF IsSpecial(n) THEN {"special"} ELSE {})
 
 EmitSkeleton(k) ==
     /\ PrintT(<<"REPLAY", ToJson([t |-> "skel", sk |-> k.i, name |-> SkName(k.i), nb |-> k.nb, tops |-> k.base,
-                                  binders |-> [b \in 1..k.nb |-> [bk |-> k.sc.bk[b], own |-> OwnFrame(k.sc, b)]],
+                                  binders |-> [b \in 1..k.nb |-> [bk |-> k.sc.bk[b], own |-> OwnFrame(k.sc, b),
+                                                                  ginit |-> InGlobalInit(k.sc, b)]],
                                   maxshadow |-> ms])>>)
-    /\ \A p \in Pairs(k) :
+
+\* the planted uses of binder -pc: visible binder => the machine (run on the planted program, all-distinct names)
+\* resolves the use to that binder; otherwise it leaves it unresolved.  Then the case is emitted.
+CheckPlanted ==
+    /\ Mode = "emit" /\ pc < 0 /\ pc > 0 - 100 /\ pc' = pc - 100 /\ UNCHANGED <<sk, nm, evs, gl, ms, st>>
+    /\ LET k == SkInfo(sk) IN
+       \A p \in {q \in Triples(k) : q[1] = 0 - pc} :
          LET b == p[1]
              s == p[2]
              in == PairInScope(k, b, s)
-         IN PrintT(<<"REPLAY", ToJson([t |-> "oos", sk |-> k.i, b |-> b, slot |-> s, inscope |-> in,
-                                       cls |-> IF in THEN "in-scope" ELSE PosClass(k.sc, b, s),
-                                       bk |-> k.sc.bk[b], own |-> OwnFrame(k.sc, b),
-                                       tops |-> PlantedTops(k.i, b, s)])>>)
+             pr == PlantedResult(k, b, s, p[3])
+         IN /\ Assert(pr.n = 1 /\ (in => pr.r = b) /\ (~in => pr.r = 0),
+                      <<"OutOfScopeUnresolved: scan and machine disagree on a planted use", sk, p, pr>>)
+            /\ PrintT(<<"REPLAY", ToJson([t |-> "oos", sk |-> k.i, b |-> b, slot |-> s, form |-> p[3], inscope |-> in,
+                                          cls |-> IF in THEN "in-scope" ELSE PosClass(k.sc, b, s),
+                                          bk |-> k.sc.bk[b], own |-> OwnFrame(k.sc, b), fnrt |-> k.sc.slots[s].fnrt,
+                                          ginit |-> InGlobalInit(k.sc, b),
+                                          tops |-> PlantedTops(k.i, b, s, p[3])])>>)
 
 Finish == /\ Mode = "emit" /\ pc = N + 1 /\ pc' = N + 2 /\ UNCHANGED <<sk, nm, evs, gl, ms, st>>
-          /\ PrintT(<<"REPLAY", ToJson([t |-> "nam", sk |-> sk, nm |-> nm, names |-> [j \in 1..Len(nm) |-> PoolName[nm[j]]],
+          /\ PrintT(<<"REPLAY", ToJson([t |-> "nam", sk |-> sk, nm |-> nm, names |-> [j \in 1..Len(nm) |-> NameStr(nm[j])],
                                         legal |-> LegalRun(st), tags |-> Tags(nm)])>>)
           /\ (nm = AllDistinct(Len(nm)) => EmitSkeleton(SkInfo(sk)))
 
@@ -78,7 +96,7 @@ GenEmit == /\ Mode = "gen" /\ pc = 0 /\ pc' = 1 /\ UNCHANGED <<sk, nm, evs, gl, 
                                                ncolours |-> r.nc, nbinders |-> r.nb, uses |-> r.uses])>>)
 
 Next == EnterFn \/ ExitFn \/ EnterBlock \/ ExitBlock \/ EnterBranch \/ ExitBranch \/ EnterArm \/ ExitArm
-        \/ EnterLoopBody \/ ExitLoopBody \/ Declare \/ Use \/ Finish \/ GenEmit
+        \/ EnterLoopBody \/ ExitLoopBody \/ Declare \/ Use \/ QualifiedUse \/ EnterModule \/ EnterTop \/ Finish \/ CheckPlanted \/ GenEmit
 Spec == Init /\ [][Next]_vars
 
 (* ------------------------------------------------ invariants of the machine *)
@@ -93,6 +111,7 @@ StackOk == Emitting =>
 NoStuck == (Emitting /\ pc <= N) =>
     /\ evs[pc].k \in (EventKinds \ {"slot"})
     /\ (evs[pc].k \in ExitKinds => CanPop(st, evs[pc].fk))
+    /\ (evs[pc].k = "top" => Len(st.stack) = 0 /\ Len(st.frames) = 0)
 \* at the end: nothing is left open; the step-by-step run equals Resolve; legality by resolution coincides with
 \* "no two conflicting binders share a name" (the name-free characterisation); MaxShadow is minimal
 DoneOk == (Emitting /\ pc = N + 1 /\ Mode = "emit") =>
@@ -104,18 +123,26 @@ DoneOk == (Emitting /\ pc = N + 1 /\ Mode = "emit") =>
 (* ----------------------------------------- properties of the case universe *)
 Sk == 1..NSkel
 Declared(k) == {k.sc.order[j] : j \in 1..Len(k.sc.order)}
-UsedIn(k) == {k.evs[j].b : j \in {x \in 1..Len(k.evs) : k.evs[x].k = "use"}}
-OosPairs(k) == {p \in Pairs(k) : ~PairInScope(k, p[1], p[2])}
-CellsOf(k) == {<<PosClass(k.sc, p[1], p[2]), k.sc.bk[p[1]]>> : p \in OosPairs(k)}
+OwnGlobals(k) == {g \in DOMAIN k.G : k.sc.bk[g] \in {"global", "globalfn"}}
+UsedIn(k) == {k.evs[j].b : j \in {x \in 1..Len(k.evs) : k.evs[x].k \in {"use", "quse"}}}
+OosTriples(k) == {p \in Triples(k) : ~PairInScope(k, p[1], p[2])}
+InTriples(k) == {p \in Triples(k) : PairInScope(k, p[1], p[2])}
+CellsOf(k) == {<<PosClass(k.sc, p[1], p[2]), k.sc.bk[p[1]]>> : p \in OosTriples(k)}
+GInitCellsOf(k) == {PosClass(k.sc, p[1], p[2]) : p \in {q \in OosTriples(k) : InGlobalInit(k.sc, q[1])}}
 AllCells == UNION {CellsOf(SkInfo(i)) : i \in Sk}
+AllGInitCells == UNION {GInitCellsOf(SkInfo(i)) : i \in Sk}
+\* <<form, in scope?, return kind of the enclosing function>> over all skeletons
+FormCellsOf(k) == {<<p[3], PairInScope(k, p[1], p[2]), k.sc.slots[p[2]].fnrt>> : p \in Triples(k)}
+AllFormCells == UNION {FormCellsOf(SkInfo(i)) : i \in Sk}
 
 ASSUME SkeletonsWellFormed == \A i \in Sk : LET k == SkInfo(i) IN
     /\ WellNested(k.evs)
     /\ Len(k.sc.order) = Cardinality(Declared(k))                 \* every binder is declared once
-    /\ Declared(k) \cup (k.G \ {SStart}) = 1..k.nb                \* the renamable binders are 1..NB
-    /\ Declared(k) \cap k.G = {}
-    /\ UsedIn(k) \subseteq Declared(k) \cup k.G
+    /\ Declared(k) \cup (OwnGlobals(k) \ {SStart}) = 1..k.nb     \* the renamable binders are 1..NB
+    /\ Declared(k) \cap DOMAIN k.G = {}
+    /\ UsedIn(k) \subseteq Declared(k) \cup DOMAIN k.G
     /\ k.nb <= 6
+    /\ IntBinders(i) \cup Fn0Binders(i) \cup EnumBinders(i) \subseteq 1..k.nb /\ MutIntBinders(i) \subseteq IntBinders(i)
 ASSUME AllDistinctLegal == \A i \in Sk : LET k == SkInfo(i) IN Legal(k.evs, k.G, AllDistinct(k.nb))
 ASSUME MaxShadowLegal == \A i \in Sk : LET k == SkInfo(i)
                                            m == MaxShadowOf(k)
@@ -124,23 +151,35 @@ ASSUME MaxShadowLegal == \A i \in Sk : LET k == SkInfo(i)
 Rot(n) == (n % Pool) + 1
 ASSUME NamesOnlyCompared == \A i \in Sk : LET k == SkInfo(i) IN \A n \in [1..k.nb -> 1..Pool] :
     ProperColouring(k.sc.conf, n) = ProperColouring(k.sc.conf, [j \in 1..k.nb |-> Rot(n[j])])
-\* the planted use: visible binder => the machine resolves it to that binder; otherwise it is unresolved
-ASSUME OutOfScopeUnresolved == \A i \in Sk : LET k == SkInfo(i) IN \A p \in Pairs(k) :
-    LET pr == PlantedResult(k, p[1], p[2]) IN
-    /\ pr.n = 1
-    /\ (PairInScope(k, p[1], p[2]) => pr.r = p[1])
-    /\ (~PairInScope(k, p[1], p[2]) => pr.r = 0)
 \* every binder has an accepted base (a use inside its scope); every local binder has out-of-scope positions
 ASSUME EveryBinderHasBase == \A i \in Sk : LET k == SkInfo(i) IN \A b \in 1..k.nb :
-    /\ \E p \in Pairs(k) : p[1] = b /\ PairInScope(k, b, p[2])
-    /\ (b \notin k.G => \E p \in OosPairs(k) : p[1] = b)
+    /\ \E p \in InTriples(k) : p[1] = b /\ p[3] = "arg"
+    /\ (b \notin DOMAIN k.G => \E p \in OosTriples(k) : p[1] = b)
 ASSUME ClassesCovered == LET cells == AllCells IN
     /\ \A c \in PosClasses : \E x \in cells : x[1] = c
     /\ {<<"after-block", "local">>, <<"after-if-branch", "local">>, <<"after-elif-branch", "local">>,
         <<"after-else-branch", "local">>, <<"after-if-branch", "fnlocal">>, <<"after-case-arm", "casebind">>,
         <<"after-case-arm", "local">>, <<"after-case-else", "local">>, <<"after-loop", "local">>,
         <<"after-fn", "param">>, <<"before-fn", "param">>, <<"after-fn", "local">>,
-        <<"before-decl", "local">>, <<"before-decl", "fnlocal">>} \subseteq cells
+        <<"before-decl", "local">>, <<"before-decl", "fnlocal">>,
+        <<"other-module", "global">>, <<"other-module", "globalfn">>} \subseteq cells
     /\ \A x \in cells : x[1] \in PosClasses \cup {"before-block", "before-if-branch", "before-elif-branch",
                                                   "before-else-branch", "before-case-arm", "before-case-else", "before-loop"}
+    \* scopes that sit directly in a global's initialiser
+    /\ {"after-if-branch", "after-else-branch", "after-case-arm", "after-block", "before-decl"} \subseteq AllGInitCells
+\* every syntactic position is planted out of scope inside void and inside value-returning functions (and, but for
+\* ret, at module level), and every position that can be well typed has an accepted in-scope base
+ASSUME FormsCovered == LET fc == AllFormCells IN
+    /\ \A fm \in StmtForms : <<fm, FALSE, "void">> \in fc /\ <<fm, FALSE, "value">> \in fc
+    /\ \A fm \in StmtForms \ {"ret-call", "ret-val"} : <<fm, FALSE, "none">> \in fc
+    /\ \A fm \in StmtForms \ {"index-base", "field-base"} : \E x \in fc : x[1] = fm /\ x[2]
+    /\ <<"ret-call", TRUE, "void">> \in fc /\ <<"ret-val", TRUE, "value">> \in fc
+    /\ <<"expr", FALSE, "none">> \in fc
+\* role names: every binder kind can legally carry `start` somewhere, and a global of another module too
+SpecialCellsOf(k, r) == {k.sc.bk[j] : j \in {x \in 1..k.nb : Legal(k.evs, k.G, SpecialNaming(k.nb, x, r))}}
+ASSUME SpecialCovered ==
+    /\ {"param", "local", "fnlocal", "casebind"} \subseteq UNION {SpecialCellsOf(SkInfo(i), 0 - SStart) : i \in Sk}
+    /\ "globalfn" \in SpecialCellsOf(SkInfo(17), 0 - SStart)
+    /\ \A i \in Sk \ {17} : SpecialCellsOf(SkInfo(i), 0 - SStart) \cap {"global", "globalfn"} = {}
+    /\ \A r \in SpecialNames : \E i \in Sk : SpecialCellsOf(SkInfo(i), r) # {}
 =============================================================================
